@@ -12,6 +12,72 @@ def extra_cases(rng, tier):
     def add(prim, tag, f, args, diff, exact, modes=("rev", "fwd")):
         out.append(R.Case(prim, tag, f, args, diff, exact, modes=modes))
 
+    # ---- (0) points ON a kink of a piecewise function: there is no Jacobian to compare with, but wherever both modes answer
+    #      they answer with one and the same linear map (C04 is not restricted to regular points) ----
+    def kink(prim, tag, f, args, diff=(0,)):
+        c = R.Case(prim, tag + " [on the kink: pairing only]", f, args, list(diff), False)
+        c.pairing_only = True
+        out.append(c)
+    kx = onp.array([[-0.5, 1.0, 0.25], [2.0, -0.5, 1.0]])
+    kink("clip", "entries equal to a bound", (lambda m, z: m.clip(z, -0.5, 1.0)), [kx])
+    kink("clip", "entries equal to the only bound", (lambda m, z: m.clip(z, None, 1.0)), [kx])
+    kink("abs", "entries equal to 0", (lambda m, z: m.abs(z)), [onp.array([0.0, 1.5, -2.0, 0.0])])
+    kink("fabs", "entries equal to 0", (lambda m, z: m.fabs(z)), [onp.array([0.0, 1.5, -2.0, 0.0])])
+    for name in ("maximum", "minimum", "fmax", "fmin"):
+        kink(name, "ties between the operands", (lambda m, a, b, name=name: getattr(m, name)(a, b)),
+             [onp.array([1.0, 2.0, 3.0, -1.0]), onp.array([1.0, 5.0, 3.0, -4.0])], (0, 1))
+        kink(name, "ties with a scalar", (lambda m, a, name=name: getattr(m, name)(a, 1.0)), [kx])
+    for name in ("max", "min", "amax", "amin"):
+        for axn, kw in (("all", {}), ("axis=1", {"axis": 1}), ("axis=0 keepdims", {"axis": 0, "keepdims": True})):
+            kink(name, "ties %s" % axn, (lambda m, z, name=name, kw=kw: getattr(m, name)(z, **kw)), [kx])
+    kink("where", "threshold met exactly", (lambda m, z: m.where(z > 1.0, z * z, 3.0 * z)), [kx])
+    kink("sort", "ties", (lambda m, z: m.sort(z, axis=None)), [kx])
+    for name in ("mod", "remainder", "fmod"):
+        kink(name, "exact multiples", (lambda m, a, b, name=name: getattr(m, name)(a, b)),
+             [onp.array([3.0, -4.5, 6.0, 2.5]), onp.array([1.5, 1.5, -2.0, 2.5])], (0, 1))
+    kink("sign", "at 0", (lambda m, z: m.sign(z) * z), [onp.array([0.0, 2.0, -1.0])])
+    # ---- (0') data whose mean dwarfs its spread (time stamps, raw counts): the two modes still pair to rounding error;
+    #      the finite-difference oracle is useless at this conditioning, so pairing only ----
+    def paired(prim, tag, f, args, diff=(0,)):
+        c = R.Case(prim, tag + " [pairing only]", f, args, list(diff), False)
+        c.pairing_only = True
+        out.append(c)
+    for off in (1.0e7, -3.0e8):
+        data = off + R.distinct(rng, (3, 4))
+        for name in ("var", "std", "mean", "sum", "prod", "cumsum", "ptp" if hasattr(onp, "ptp") else "sum"):
+            for axn, kw in (("all", {}), ("axis=1", {"axis": 1}), ("axis=0 keepdims", {"axis": 0, "keepdims": True})):
+                paired(name, "offset %g %s" % (off, axn), (lambda m, z, name=name, kw=kw: getattr(m, name)(z, **kw)), [data])
+        paired("var", "offset %g ddof=1" % off, (lambda m, z: m.var(z, axis=0, ddof=1)), [data])
+        paired("linalg.norm", "offset %g" % off, (lambda m, z: m.linalg.norm(z, axis=1)), [data])
+        paired("logsumexp-like", "offset %g" % off, (lambda m, z: m.log(m.sum(m.exp(z - m.max(z))))), [data])
+    # ---- (0'') the axis given as a NumPy integer scalar (what argmax, shape arithmetic and loops over np.arange hand out) ----
+    d234 = R.positive(rng, (2, 3, 4))
+    for name in ("sum", "mean", "var", "std", "prod", "max", "min", "cumsum", "cumprod", "sort", "flip", "expand_dims", "roll",
+                 "logsumexp-free softmax", "repeat", "concatenate", "stack", "squeeze", "swapaxes", "moveaxis", "diff", "linalg.norm", "take"):
+        for ax in (onp.int64(1), onp.intp(0), onp.int32(-1), onp.int64(-2)):
+            if name == "logsumexp-free softmax":
+                f = lambda m, z, ax=ax: m.exp(z) / m.sum(m.exp(z), axis=ax, keepdims=True)                   # noqa: E731
+            elif name == "roll":
+                f = lambda m, z, ax=ax: m.roll(z, 1, axis=ax)                                                  # noqa: E731
+            elif name == "repeat":
+                f = lambda m, z, ax=ax: m.repeat(z, 2, axis=ax)                                                # noqa: E731
+            elif name in ("concatenate", "stack"):
+                f = lambda m, z, ax=ax, name=name: getattr(m, name)([z, 2.0 * z], axis=ax)                     # noqa: E731
+            elif name == "squeeze":
+                f = lambda m, z, ax=ax: m.squeeze(m.sum(z, axis=int(ax), keepdims=True), axis=ax)              # noqa: E731
+            elif name == "swapaxes":
+                f = lambda m, z, ax=ax: m.swapaxes(z, ax, onp.int64(0))                                        # noqa: E731
+            elif name == "moveaxis":
+                f = lambda m, z, ax=ax: m.moveaxis(z, ax, onp.int64(0))                                        # noqa: E731
+            elif name == "linalg.norm":
+                f = lambda m, z, ax=ax: m.linalg.norm(z, axis=ax)                                              # noqa: E731
+            elif name == "take":
+                f = lambda m, z, ax=ax: m.take(z, onp.array([1, 0, 1]), axis=ax)                               # noqa: E731
+            elif name == "expand_dims":
+                f = lambda m, z, ax=ax: m.expand_dims(z, ax)                                                   # noqa: E731
+            else:
+                f = lambda m, z, ax=ax, name=name: getattr(m, name)(z, axis=ax)                                # noqa: E731
+            add(name, "axis=np.%s(%d)" % (type(ax).__name__, int(ax)), f, [d234], [0], False)
     # ---- (a) the same array object in two argument positions: the derivative is the sum over both positions ----
     v4 = R.distinct(rng, (4,))
     p4 = R.positive(rng, (4,))
